@@ -18,7 +18,7 @@ import sys
 import threading
 
 from .. import decode as dec
-from ..boot import SIM, rearm_watchdog, set_capacity
+from ..boot import SIM, clear_kernel_cache, rearm_watchdog, set_capacity
 from ..sched import Abandoned, Sched
 
 NAME = "T"
@@ -630,7 +630,8 @@ def _run_once(plan, cfg=None):
     try:
         os.chdir(_state["base_cwd"])
         _set_cache_size(_porcelain, plan.get("cache_size", 128), res)
-        _porcelain.cachable_tensor_method.cache_clear()
+        if not clear_kernel_cache():
+            res["probes"]["cache_clear_unavailable"] = 1
         set_capacity(plan["capacity"])
         heap.reset()
         heap.configure(garbage=g, redzone=z, rz=hk["rz"], realloc=hk["realloc"], zero=hk["zero"],
@@ -659,7 +660,8 @@ def _run_once(plan, cfg=None):
                 ref[(pi, v)] = ("exc", type(e).__name__)
                 del e
         shared_names = _state_diff(fp0, _module_state()) if want_shared else {}
-        _porcelain.cachable_tensor_method.cache_clear()
+        if not clear_kernel_cache():
+            res["probes"]["cache_clear_unavailable"] = 1
         for p in problems:
             if p["prewarm"] and not p.get("flood"):
                 try:
